@@ -53,7 +53,8 @@ SELFTEST_TASK = ('toggle',)
 
 
 def tasks(tier, seed):
-    out = [('toggle',), ('fixed',), ('subclasses',), ('generations',)]
+    out = [('toggle',), ('fixed',), ('fixed', 'wrapped'), ('subclasses',),
+           ('generations',)]
     for legacy in (False, True):
         for lo in range(-70000, 70001, 10000):
             out.append(('dense', legacy, lo, min(70001, lo + 10000)))
@@ -312,6 +313,54 @@ def observe_arrays(ctx, legacy):
                 ctx.outcome('ok')
 
 
+def check_fixed_wrapped(ctx):
+    """The fixed-width encoders given an int SUBCLASS instance or an object
+    that is merely usable as an integer (__index__): it may be refused
+    (TypeError, like every wrong type), and if it is accepted it is held to
+    what the plain int is held to - out of range is a TypeError, in range is
+    that integer's bytes."""
+    e = lib.pamqp().encode
+    Mine = type('Mine', (int,), {})
+    Like = type('Like', (object,), {
+        '__init__': lambda self, n: setattr(self, 'n', n),
+        '__index__': lambda self: self.n, '__int__': lambda self: self.n,
+        '__repr__': lambda self: 'Like(%d)' % self.n})
+    for name, lo, hi, fmt in FIXED:
+        func = getattr(e, name)
+        for n in sorted({lo - 1, lo, lo + 1, -1, 0, 1, hi - 1, hi, hi + 1,
+                         2 * hi + 1, 2 * hi + 2, -2**64, 2**64}):
+            for label, wrap in (('int subclass', Mine),
+                                ('integer-like object', Like)):
+                ctx.case(('fixed', name, n, label), True,
+                         sample={'encoder': name, 'n': sn(n), 'as': label})
+                case = {'kind': 'fixed-wrapped'}
+                fp = 'fixed|{}|{}|{}'.format(name, sn(n), label)
+                ctx.valid()
+                try:
+                    got = func(wrap(n))
+                    ctx.calls()
+                except TypeError:
+                    ctx.outcome('refused')
+                    continue
+                except Exception as exc:  # noqa
+                    ctx.violation(fp, '{}({} {}) raised {} instead of '
+                                  'TypeError'.format(name, label, sn(n),
+                                                     type(exc).__name__),
+                                  case, 'TypeError', repr(exc))
+                    continue
+                if not lo <= n <= hi:
+                    ctx.violation(fp, '{}({} {}) accepted an out-of-range '
+                                  'value: {}'.format(name, label, sn(n),
+                                                     got.hex()), case,
+                                  'TypeError', got.hex())
+                elif got != struct.pack(fmt, n):
+                    ctx.violation(fp, '{}({} {}) = {}'.format(
+                        name, label, sn(n), got.hex()), case,
+                        struct.pack(fmt, n).hex(), got.hex())
+                else:
+                    ctx.outcome('ok')
+
+
 def ints_for(task, tier, seed):
     kind = task[0]
     if kind == 'dense':
@@ -458,8 +507,15 @@ def check_subclasses(ctx):
             Mine = type('Mine', (int,), {})
             Table = type('Table', (collections.OrderedDict,), {})
             Array = type('Array', (list,), {})
+            Like = type('Like', (object,), {
+                '__init__': lambda self, n: setattr(self, 'n', n),
+                '__index__': lambda self: self.n,
+                '__int__': lambda self: self.n})
             groups = [('IntEnum member', list(Enum)),
-                      ('int subclass', [Mine(v) for v in values])]
+                      ('int subclass', [Mine(v) for v in values]),
+                      # not an int at all, but usable as one (a numpy scalar):
+                      # refused, or on the ladder like the int it stands for
+                      ('integer-like object', [Like(v) for v in values])]
             for step, legacy in enumerate(seq):
                 set_switch(legacy)
                 for label, members in groups:
@@ -641,6 +697,8 @@ def run(task, ctx):
             check_subclasses(ctx)
         elif task[0] == 'generations':
             check_generations(ctx)
+        elif task[0] == 'fixed' and len(task) > 1:
+            check_fixed_wrapped(ctx)
         elif task[0] == 'fixed':
             set_switch(False)
             check_fixed(ctx)
@@ -678,6 +736,8 @@ def replay(case, ctx):
             check_subclasses(ctx)
         elif case['kind'] == 'generations':
             check_generations(ctx)
+        elif case['kind'] == 'fixed-wrapped':
+            check_fixed_wrapped(ctx)
         elif case['kind'] == 'fixed':
             check_fixed(ctx)
             ctx.violations = [v for v in ctx.violations if v['case'] == case]
